@@ -16,13 +16,13 @@ from common import Driver, Violation, make_request
 CYCLES = {
     "pipe-open-close": "(let [[r w] (os/pipe)] (:close r) (:close w))",
     "pipe-xfer": "(let [[r w] (os/pipe)] (ev/write w \"hello\") (ev/read r 5) (:close w) (ev/read r 5) (:close r))",
-    "pipe-drop-unclosed": "(do (os/pipe) nil)",
+    "pipe-drop-unclosed": "(do (os/pipe) (gccollect) nil)",
     "unix-connect-accept": "(let [name (string \"@jsim-c20-\" (os/getpid)) srv (net/listen :unix name) c (net/connect :unix name) a (net/accept srv)] "
                            "(ev/write c \"ping\") (ev/read a 4) (:close c) (:close a) (:close srv))",
     "spawn-wait": "(let [p (os/spawn [\"sim-child\" \"w10\" \"x0\"] :p {:out :pipe})] (ev/read (p :out) 10) (os/proc-wait p) (os/proc-close p))",
     "spawn-wait-only": "(let [p (os/spawn [\"sim-child\" \"s1\" \"x3\"] :p)] (os/proc-wait p))",
     "proc-wait-abandoned": "(let [p (os/spawn [\"sim-child\" \"s4\" \"x0\"] :p)] (protect (ev/with-deadline 0.002 (os/proc-wait p))) (ev/sleep 0.004))",
-    "spawn-drop": "(do (os/spawn [\"sim-child\" \"x0\"] :p {:out :pipe}) nil)",
+    "spawn-drop": "(do (os/spawn [\"sim-child\" \"x0\"] :p {:out :pipe}) (gccollect) nil)",
     "chan-pingpong": "(let [c (ev/chan)] (ev/spawn (ev/give c 1)) (ev/take c))",
     "chan-buffered-drop": "(let [c (ev/chan 4)] (ev/give c @[1 2 3]) nil)",
     "thread-chan-pingpong": "(let [c (ev/thread-chan 1)] (ev/spawn-thread (ev/give c :x)) (ev/take c))",
